@@ -4,7 +4,12 @@ M = (1 << 64) - 1
 
 class Rng:
     def __init__(self, seed: int):
-        self.s = (seed * 0x9E3779B97F4A7C15 + 0x1234567) & M
+        # the seed is hashed first: with a plain linear start, Rng(seed+1) would be Rng(seed)
+        # advanced by one step, so neighbouring seeds would explore nearly the same stream
+        z = (int(seed) ^ 0x5851F42D4C957F2D) & M
+        z = ((z ^ (z >> 33)) * 0xFF51AFD7ED558CCD) & M
+        z = ((z ^ (z >> 33)) * 0xC4CEB9FE1A85EC53) & M
+        self.s = (z ^ (z >> 33)) & M
 
     def next(self) -> int:
         self.s = (self.s + 0x9E3779B97F4A7C15) & M
